@@ -930,5 +930,62 @@ def c01_init_stores(ctx):
     from .C01 import init_stores as _r
     return _r(ctx)
 
-RULES = [c01_init_stores, derived_sync_rule, c12_arg_names, fresh_load, s1_keys, s2_roundtrip, s3_plain, s4_arity, s5_none, s6_optic,
+def load_pure(ctx):
+    """'the dictionary form of a reloaded lens equals the one it was loaded
+    from': reconstruction only builds objects from the saved values; nothing
+    on the call graph below Optic.from_dict may run the editing API (setters,
+    pickup / solve application, update, scaling) on the lens being loaded."""
+    P, eff = ctx.P, ctx.effects
+    res = Result('LOAD-PURE', 'no function reachable from Optic.from_dict '
+                 'edits the loaded prescription (set_*, apply, update, '
+                 'scale_system, image_solve)')
+    entry = P.func('Optic.from_dict')
+    res.saw(entry)
+    EDIT = {'Optic.set_radius', 'Optic.set_conic', 'Optic.set_thickness',
+            'Optic.set_index', 'Optic.set_asphere_coeff', 'Optic.update',
+            'Optic.update_paraxial', 'Optic.scale_system',
+            'Optic.image_solve', 'Pickup.apply', 'PickupManager.apply',
+            'SolveManager.apply', 'MarginalRayHeightSolve.apply',
+            'QuickFocusSolve.apply', 'BaseSolve.apply'}
+    present = {q for q in EDIT if P.has(q)}
+    if len(present) < 8:
+        raise AnalysisError(f'LOAD-PURE: editing API not found ({present})')
+    # resolved calls only: a call whose receiver type is unknown (a pandas
+    # DataFrame's .apply in the catalogue look-up) is not followed by name
+    seen = {}
+    unresolved = 0
+    stack = [(entry, None)]
+    while stack:
+        f, parent = stack.pop()
+        if f.qual in seen:
+            continue
+        seen[f.qual] = (f, parent)
+        unresolved += sum(1 for c_, r_, s_ in eff.fe[f.qual].calls
+                          if r_ is None)
+        for g in eff.callees(f, name_based=False) + eff.prop_reads(f):
+            if g.qual not in seen:
+                stack.append((g, f.qual))
+    hit = sorted(q for q in seen if q in present)
+    res.ok(f'{len(seen)} functions reachable from Optic.from_dict through '
+           f'resolved calls ({unresolved} calls with an unknown receiver not '
+           f'followed)')
+    if not hit:
+        res.ok('none of them is part of the editing API')
+    for q in hit:
+        chain = eff.chain(seen, q)
+        f = seen[q][0]
+        caller = seen[chain[-2]][0] if len(chain) > 1 else entry
+        res.fail(ctx.finding(
+            'LOAD-PURE', caller, None,
+            f'loading a lens runs {q} (via {" -> ".join(chain)}): the '
+            f'prescription read from the file is edited while it is being '
+            f'reconstructed, so a saved state that is not a fixed point of '
+            f'that edit (chained pickups, pickup offset followed by '
+            f'scale_system, source edited without update) is not the lens '
+            f'that is returned',
+            construct=f'load reaches {q}'))
+    return res
+
+
+RULES = [load_pure, c01_init_stores, derived_sync_rule, c12_arg_names, fresh_load, s1_keys, s2_roundtrip, s3_plain, s4_arity, s5_none, s6_optic,
          s7_kwargs, plain_store, file_wrapper]
